@@ -61,8 +61,9 @@ var props = map[string]propCfg{
 	"C07": {
 		Scenarios: []scenCfg{
 			{Name: "filter", Quick: 2500, Thorough: 150000, Batch: 100},
+			{Name: "c09", Quick: 1200, Thorough: 100000, Batch: 50},
 		},
-		Rule: "filter: one evaluation = one simulated `fzf --filter` process (real option parser, Run, reader, poller, matcher or streaming path, printer) with seeded option set, input, read() cut plan and worker schedule; stdout bytes and exit status compared with a framing model; " +
+		Rule: "c09: interactive sessions ending in accept: printed lines = the model's selection in selection order (or the current line), exit status 0/1. filter: one evaluation = one simulated `fzf --filter` process (real option parser, Run, reader, poller, matcher or streaming path, printer) with seeded option set, input, read() cut plan and worker schedule; stdout bytes and exit status compared with a framing model; " +
 			"distinct = distinct event-log hash; non-trivial = at least one preemption",
 		RealStub: map[string][]string{
 			"real": {"ParseOptions", "Run (filter mode)", "Reader + poller", "ChunkList", "Matcher.scan", "Merger", "printer (os.Stdout redirected to a file)"},
@@ -91,6 +92,18 @@ var props = map[string]propCfg{
 		RealStub: map[string][]string{
 			"real": {"ParseOptions", "Run (coordinator)", "Reader + poller", "ChunkList", "ChunkCache", "Matcher.Loop/scan", "Merger", "Terminal (action interpreter, render loop)", "LightRenderer (input decoder + escape generator)"},
 			"stub": {"tty device + VT emulator", "stdin pipe", "child processes (reload commands) and their pipes", "signals", "clock", "goroutine scheduler"},
+		},
+		QuickSecs: 120, ThorSecs: 1800,
+	},
+	"C09": {
+		Scenarios: []scenCfg{
+			{Name: "c09", Quick: 1500, Thorough: 120000, Batch: 50},
+		},
+		Rule: "c09: one evaluation = one simulated interactive session over a fully loaded list in which a seeded history of editing, navigation and selection actions (bound to keys, decoded by the real input decoder) is delivered; after each action (or burst) the session settles and (query, query cursor, list cursor, selection in selection order, limit) read from the real Terminal are compared with a reference editor/cursor/selection model whose result list comes from the sequential oracle; on accept the printed lines are compared with the model's selection; " +
+			"distinct = distinct event-log hash; non-trivial = at least one preemption",
+		RealStub: map[string][]string{
+			"real": {"ParseOptions (--bind, --multi, --cycle, --layout, --height, --no-input)", "Run", "Terminal.Loop action interpreter", "LightRenderer input decoder", "matcher/merger", "printer"},
+			"stub": {"tty device + VT emulator", "stdin", "clock", "goroutine scheduler"},
 		},
 		QuickSecs: 120, ThorSecs: 1800,
 	},
